@@ -581,7 +581,7 @@ _NAMES = ["a", "b", "c", "d1/e", "d1/f", "d2/g"]
 
 
 @st.composite
-def description(draw, max_cmds=7, allow_dirs=False, allow_deps=True, allow_extra_tools=True):
+def description(draw, max_cmds=7, allow_dirs=False, allow_deps=True, allow_extra_tools=True, allow_amo=False):
     nsrc = draw(st.integers(1, 4))
     sources = [draw(st.sampled_from(["src%d", "src%d", "sd/src%d", "sd/sub/src%d", "sd/a/src%d", "sd/zrc%d"])) % i for i in range(nsrc)]
     tree_ok = allow_dirs and any(s.startswith("sd/") for s in sources)
@@ -622,6 +622,10 @@ def description(draw, max_cmds=7, allow_dirs=False, allow_deps=True, allow_extra
             c = {"name": name, "tool": "shell", "inputs": ins, "outputs": outs, "salt": "s%d" % draw(st.integers(0, 2))}
             if allow_deps and draw(st.integers(0, 2)) == 0:
                 c["deps"] = draw(st.sampled_from(["makefile", "dependency-info", "makefile-ignoring-subsequent-outputs"]))
+            if allow_amo and draw(st.integers(0, 5)) == 0:
+                # outputs may be modified behind the command's back without invalidating it (the histories
+                # never tamper with them); everything else about the command is as usual
+                c["allow-modified-outputs"] = True
             cmds.append(c)
             avail += [o for o in outs if not is_virtual(o)]
         elif kind == "phony":
